@@ -403,6 +403,31 @@ def run(ctx):
             for _, ex in hist_execs:
                 if ex is not None:
                     ex.shutdown(wait=True)
+        # relative paths, and the working directory changes between two calls of one process: each call reads the files of ITS directory
+        dirs = []
+        for di, off in enumerate((0, 1)):
+            dd = os.path.join(tmp, f'cwd{di}')
+            os.makedirs(dd)
+            for j in range(3):
+                shutil.copy(skew[(j + off) % len(skew)], os.path.join(dd, f'g{j}.fa'))
+            dirs.append((dd, [single_skew[(j + off) % len(skew)] for j in range(3)]))
+        here = os.getcwd()
+        try:
+            for conc in ('processes', 'threads', None):
+                for rep in range(2):
+                    for dd, want in dirs:
+                        os.chdir(dd)
+                        rr = dict(n=3, failing=[], outcome='', sigs=[], mode=f'chdir:{conc}', workers=2 if conc else 0, step=f'{os.path.basename(dd)}#{rep}')
+                        try:
+                            res = calc_file_signatures(KS, seqfiles(['g0.fa', 'g1.fa', 'g2.fa']), concurrency=conc, max_workers=2 if conc else None)
+                            rr['outcome'] = 'returned'
+                            rr['sigs'] = [j + 1 if which(s_, [want[j]]) == 1 else 0 for j, s_ in enumerate(res)]
+                        except BaseException as e:
+                            rr['outcome'] = 'raised'
+                            rr['err'] = type(e).__name__
+                        mrecs.append(rr)
+        finally:
+            os.chdir(here)
         for r in mrecs:
             exp_out = 'raised' if r['failing'] else 'returned'
             ok = r['outcome'] == exp_out and (exp_out == 'raised' or r['sigs'] == list(range(1, r['n'] + 1)))
